@@ -388,3 +388,29 @@ Definition sres_eqb (a : sres) (b : stream) (e : option err) : bool :=
 Definition it_eqb (a : res (Q * cn_cache)) (b : res (Q * cn_cache)) : bool :=
   res_eqb (fun x y => qapproxb (fst x) (fst y) && (fst (snd x) =? fst (snd y))%nat
                       && opt_eqb qeqb (snd (snd x)) (snd (snd y))) a b.
+
+(* the S setter as it stands on the unrepaired tree: the fallback assigns the solver's result to self.S *)
+Fixpoint setS_v0 (fuel : nat) (O : oracles) (s : stream) (x : Q) : sres :=
+  if qzerob x && isempty s then (s, None) else
+  if multi s then solve_into (solveS O) s (pm s) x else
+  match solveS O (pm s) x (sT s) (sP s) with
+  | Ok T' => (set_T s T', None)
+  | Err e =>
+      match flip (phase1 s) with
+      | None => (s, Some e)
+      | Some p' =>
+          let s1 := set_phase1 s p' in
+          match solveS O (pm s1) x (sT s1) (sP s1) with
+          | Err e2 => (s1, Some e2)
+          | Ok v => match fuel with
+                    | O => (s1, Some ERuntime)
+                    | S f => setS_v0 f O s1 v
+                    end
+          end
+      end
+  end.
+
+(* what the case files evaluate *)
+Definition Hs_ok (O : oracles) (st : store) (Hs : vec) : bool := vapproxb (map (getH O) st) Hs.
+Definition store_check (O : oracles) (got : res store) (expected : res store) (Hs : vec) : bool :=
+  res_eqb store_eqb got expected && match got with Ok st' => Hs_ok O st' Hs | Err _ => true end.
